@@ -1,7 +1,7 @@
 #!/usr/bin/env python3
 """Print the prompt given to a mutation sub-agent for one property (property text only, nothing from /verif's machinery)."""
 import json, sys
-pid = sys.argv[1]; wt = sys.argv[2]
+pid = sys.argv[1]; wt = sys.argv[2]; avoid = sys.argv[3] if len(sys.argv) > 3 else ''
 for l in open('/verif/properties.jsonl'):
     p = json.loads(l)
     if p['id'] == pid: break
@@ -17,7 +17,7 @@ Here is a semantic property of the library that is supposed to hold:
   Quantified over: {p['quantifier']['text']}
   Files involved: {', '.join(p['anchors']['files'])}
 
-TASK: produce TWO different, independent changes (mutations) to the library source under {wt}/speckit that each BREAK this property while the code still imports/compiles and the ENTIRE existing test suite still passes. Make them realistic - the kind of subtle bug a refactor or an 'optimisation' could introduce - and make them need something specific to manifest (an unusual input or configuration, a particular branch, a multi-step sequence of operations, a boundary case, or two cooperating sites that each look fine alone), NOT something that ordinary use or the simplest call would expose at once. Do not touch the tests. Keep each change small (a few lines).
+TASK: produce TWO different, independent changes (mutations) to the library source under {wt}/speckit that each BREAK this property while the code still imports/compiles and the ENTIRE existing test suite still passes. Make them realistic - the kind of subtle bug a refactor or an 'optimisation' could introduce - and make them need something specific to manifest (an unusual input or configuration, a particular branch, a multi-step sequence of operations, a boundary case, or two cooperating sites that each look fine alone), NOT something that ordinary use or the simplest call would expose at once. Do not touch the tests. Keep each change small (a few lines).{(' Earlier rounds already produced changes at these sites, so choose DIFFERENT sites and mechanisms: ' + avoid + '.') if avoid else ''}
 
 For each mutation k in (1,2) write into {wt}/mut_k/ :
   - patch.diff : output of `git -C {wt} diff` for that mutation alone, relative to the unchanged HEAD (so that `git apply patch.diff` on a clean checkout reproduces it)
